@@ -1,4 +1,310 @@
-import IsoDT.Model.Recurrence
+/-
+  C13 — Recurrence queries agree with iteration.
+
+  Proved for recurrences with an exact interval (any notation): `get_next`/`get_prev` move to the
+  adjacent member and give `None` past the ends, `r[i]` is the `i`-th iterated point,
+  `get_is_valid` is membership of the iterated series by instant (so any representation or offset
+  of the probe), and the closed form of `get_first_after` is the earliest member strictly later
+  than the probe.  Month/year intervals: observed by the correspondence only.
+-/
+import IsoDT.Props.C12
+
 namespace IsoDT.Props.C13
-theorem placeholder : (1 : Nat) = 1 := rfl
+open IsoDT IsoDT.Model IsoDT.Lemmas IsoDT.Props.C12
+open IsoDT.Spec (Date TZ TP)
+
+/-- **get_next / get_prev** on a recurrence with exact interval `d` of length `L`: from any valid
+    point `p` (in particular a member, however it is written) the candidate is exactly one
+    interval away, in `p`'s representation and offset, and it is returned iff it lies within the
+    recurrence's bounds — otherwise `None` (the ends of a bounded series). -/
+theorem C13_next_prev (m : Mode) (r : Rec) (d : Dur) (L : Int) (hr : ExactRec m r d L) (p : TP)
+    (hp : p.Valid m) :
+    (∃ q, Good m p q L ∧ getNext m r p = (if inBounds m r q then some q else none) ∧
+      (inBounds m r q = true ↔ (∀ s, r.start = some s → s.inst m ≤ q.inst m) ∧
+        (∀ e, r.end_ = some e → q.inst m ≤ e.inst m))) ∧
+    (∃ q, Good m p q (-L) ∧ getPrev m r p = (if inBounds m r q then some q else none) ∧
+      (inBounds m r q = true ↔ (∀ s, r.start = some s → s.inst m ≤ q.inst m) ∧
+        (∀ e, r.end_ = some e → q.inst m ≤ e.inst m))) := by
+  obtain ⟨q, _, g, hn⟩ := getNext_exact m r d L hr p hp
+  obtain ⟨q', _, g', hn'⟩ := getPrev_exact m r d L hr p hp
+  exact ⟨⟨q, g, hn, inBounds_iff m r d L hr q g.strict.1⟩, ⟨q', g', hn', inBounds_iff m r d L hr q' g'.strict.1⟩⟩
+
+/-- One repetition: no neighbours. -/
+theorem C13_single_no_neighbours (m : Mode) (r : Rec) (h : r.reps = some 1) (p : TP) :
+    getNext m r p = none ∧ getPrev m r p = none := by
+  unfold getNext getPrev; simp [h]
+
+/-! ### membership -/
+
+theorem series_inst_ne_of_gt (m : Mode) (rep : Nat) (tz : TZ) : ∀ (l : List TP) (i0 step x : Int),
+    SeriesOK m rep tz l i0 step → 0 < step → x < i0 → ∀ q ∈ l, q.inst m ≠ x := by
+  intro l
+  induction l with
+  | nil => intro _ _ _ _ _ _ q hq; cases hq
+  | cons p rest ih =>
+    intro i0 step x hs hpos hx q hq
+    obtain ⟨h1, _, _, _, h5⟩ := hs
+    rcases List.mem_cons.mp hq with rfl | hq
+    · omega
+    · exact ih (i0 + step) step x h5 hpos (by omega) q hq
+
+theorem series_inst_ne_of_lt (m : Mode) (rep : Nat) (tz : TZ) : ∀ (l : List TP) (i0 step x : Int),
+    SeriesOK m rep tz l i0 step → step < 0 → i0 < x → ∀ q ∈ l, q.inst m ≠ x := by
+  intro l
+  induction l with
+  | nil => intro _ _ _ _ _ _ q hq; cases hq
+  | cons p rest ih =>
+    intro i0 step x hs hneg hx q hq
+    obtain ⟨h1, _, _, _, h5⟩ := hs
+    rcases List.mem_cons.mp hq with rfl | hq
+    · omega
+    · exact ih (i0 + step) step x h5 hneg (by omega) q hq
+
+/-- The scan of `get_is_valid` over an increasing series (a recurrence that has a start point):
+    true exactly when some listed point is at the probe's instant.  The early exit (taken only
+    when there is no end point) is sound because the later points are later still. -/
+theorem scan_fwd (m : Mode) (r : Rec) (hst : r.start.isNone = false) (p : TP) (hp : p.Valid m)
+    (rep : Nat) (tz : TZ) : ∀ (l : List TP) (i0 step : Int), SeriesOK m rep tz l i0 step → 0 < step →
+      (scanValid m r p l = true ↔ ∃ q ∈ l, q.inst m = p.inst m) := by
+  intro l
+  induction l with
+  | nil => intro _ _ _ _; simp [scanValid]
+  | cons q rest ih =>
+    intro i0 step hs hpos
+    obtain ⟨h1, hv, _, _, h5⟩ := hs
+    have he := tpEq_iff m q p hv hp
+    have hg := tpGt_iff m q p hv hp
+    unfold scanValid
+    by_cases c1 : tpEq m q p = true
+    · rw [if_pos c1]
+      exact ⟨fun _ => ⟨q, List.mem_cons_self, he.mp c1⟩, fun _ => rfl⟩
+    · rw [if_neg c1]
+      simp only [hst, Bool.false_and, Bool.false_eq_true, ↓reduceIte]
+      have hne : q.inst m ≠ p.inst m := fun h => c1 (he.mpr h)
+      by_cases c2 : (r.end_.isNone && tpGt m q p) = true
+      · rw [if_pos c2]
+        simp only [Bool.and_eq_true] at c2
+        have hgt := hg.mp c2.2
+        constructor
+        · intro h; cases h
+        · rintro ⟨x, hx, hxe⟩
+          rcases List.mem_cons.mp hx with rfl | hx
+          · exact absurd hxe hne
+          · exact absurd hxe (series_inst_ne_of_gt m rep tz rest (i0 + step) step (p.inst m) h5 hpos
+              (by omega) x hx)
+      · rw [if_neg c2, ih (i0 + step) step h5 hpos]
+        constructor
+        · rintro ⟨x, hx, hxe⟩; exact ⟨x, List.mem_cons_of_mem _ hx, hxe⟩
+        · rintro ⟨x, hx, hxe⟩
+          rcases List.mem_cons.mp hx with rfl | hx
+          · exact absurd hxe hne
+          · exact ⟨x, hx, hxe⟩
+
+/-- The same for the backward iteration of an unbounded duration/end recurrence. -/
+theorem scan_rev (m : Mode) (r : Rec) (hst : r.start.isNone = true) (hen : r.end_.isNone = false) (p : TP)
+    (hp : p.Valid m) (rep : Nat) (tz : TZ) : ∀ (l : List TP) (i0 step : Int),
+      SeriesOK m rep tz l i0 step → step < 0 →
+      (scanValid m r p l = true ↔ ∃ q ∈ l, q.inst m = p.inst m) := by
+  intro l
+  induction l with
+  | nil => intro _ _ _ _; simp [scanValid]
+  | cons q rest ih =>
+    intro i0 step hs hneg
+    obtain ⟨h1, hv, _, _, h5⟩ := hs
+    have he := tpEq_iff m q p hv hp
+    have hl := tpLt_iff m q p hv hp
+    unfold scanValid
+    by_cases c1 : tpEq m q p = true
+    · rw [if_pos c1]
+      exact ⟨fun _ => ⟨q, List.mem_cons_self, he.mp c1⟩, fun _ => rfl⟩
+    · rw [if_neg c1]
+      have hne : q.inst m ≠ p.inst m := fun h => c1 (he.mpr h)
+      simp only [hst, hen, Bool.true_and, Bool.false_and, Bool.false_eq_true, ↓reduceIte]
+      by_cases c2 : tpLt m q p = true
+      · rw [if_pos c2]
+        have hlt := hl.mp c2
+        constructor
+        · intro h; cases h
+        · rintro ⟨x, hx, hxe⟩
+          rcases List.mem_cons.mp hx with rfl | hx
+          · exact absurd hxe hne
+          · exact absurd hxe (series_inst_ne_of_lt m rep tz rest (i0 + step) step (p.inst m) h5 hneg
+              (by omega) x hx)
+      · rw [if_neg c2, ih (i0 + step) step h5 hneg]
+        constructor
+        · rintro ⟨x, hx, hxe⟩; exact ⟨x, List.mem_cons_of_mem _ hx, hxe⟩
+        · rintro ⟨x, hx, hxe⟩
+          rcases List.mem_cons.mp hx with rfl | hx
+          · exact absurd hxe hne
+          · exact ⟨x, hx, hxe⟩
+
+/-- **get_is_valid**, start/duration with `n ≥ 2` repetitions and an exact interval: true exactly
+    when iteration yields a point at the probe's instant, i.e. iff the probe is at
+    `start + k·d` for some `0 ≤ k < n` — whatever representation or offset the probe is written in. -/
+theorem C13_is_valid_bounded (m : Mode) (n : Nat) (s : TP) (d : Dur) (hn : 2 ≤ n) (hs : s.Valid m)
+    (hex : d.isExact = true) (hpos : 0 < d.exactSeconds m) (fuel : Nat) (hf : n ≤ fuel)
+    (p : TP) (hp : p.Valid m) :
+    ∃ r, mkRec m (some (n : Int)) (some s) (some d) none = some r ∧
+      (getIsValid m r p fuel = true ↔ ∃ q ∈ iter m r fuel, q.inst m = p.inst m) ∧
+      ((∃ q ∈ iter m r fuel, q.inst m = p.inst m) ↔
+        ∃ k : Nat, k < n ∧ p.inst m = s.inst m + (k : Int) * d.exactSeconds m) := by
+  obtain ⟨r, hr, hlen, _, hser⟩ := C12_start_duration_bounded m n s d hn hs hex hpos fuel hf
+  obtain ⟨e, hr', es, ei, _, _⟩ := mkRec_fmt3_bounded m n s d (by omega) hs hex hpos
+  rw [hr] at hr'
+  have hre : r = ⟨some (n : Int), some s, some d, some e, none, 3⟩ := by simpa using hr'
+  refine ⟨r, hr, ?_, ?_⟩
+  · have hx : ExactRec m r d (d.exactSeconds m) := by
+      rw [hre]
+      exact exactRec_of m _ d rfl hex hpos (by simp; omega) (fun s' h => by cases h; exact hs)
+        (fun e' h => by cases h; exact es.1)
+    have hsc := scan_fwd m r (by rw [hre]; rfl) p hp _ _ (iter m r fuel) _ _ hser hpos
+    unfold getIsValid
+    by_cases cb : inBounds m r p = true
+    · simp only [cb, Bool.not_true, Bool.false_eq_true, ↓reduceIte]
+      exact hsc
+    · have cb' : inBounds m r p = false := by cases h : inBounds m r p <;> simp_all
+      simp only [cb', Bool.not_false, ↓reduceIte, Bool.false_eq_true, false_iff]
+      rintro ⟨q, hq, hqe⟩
+      apply cb
+      rw [inBounds_iff m r d _ hx p hp]
+      obtain ⟨i, hi, rfl⟩ := List.getElem_of_mem hq
+      have hg := seriesOK_get m _ _ _ _ _ hser i hi
+      rw [hlen] at hi
+      constructor
+      · intro s' h; rw [hre] at h; cases h
+        rw [← hqe, hg.1]
+        have := Int.mul_nonneg (Int.natCast_nonneg i) (Int.le_of_lt hpos); omega
+      · intro e' h; rw [hre] at h; cases h
+        rw [← hqe, hg.1, ei]
+        have h1 : (i : Int) ≤ (n : Int) - 1 := by omega
+        have := Int.mul_le_mul_of_nonneg_right h1 (Int.le_of_lt hpos)
+        rw [Int.mul_comm (d.exactSeconds m)]; omega
+  · constructor
+    · rintro ⟨q, hq, hqe⟩
+      obtain ⟨i, hi, rfl⟩ := List.getElem_of_mem hq
+      have hg := seriesOK_get m _ _ _ _ _ hser i hi
+      exact ⟨i, by omega, by rw [← hqe, hg.1]⟩
+    · rintro ⟨k, hk, hke⟩
+      have hk' : k < (iter m r fuel).length := by omega
+      have hg := seriesOK_get m _ _ _ _ _ hser k hk'
+      exact ⟨(iter m r fuel)[k], List.getElem_mem hk', by rw [hg.1, hke]⟩
+
+/-- **`r[i]`** is the `i`-th iterated point (start/duration, `n ≥ 2`, exact interval): at instant
+    `start + i·d` for `i < n`, and an `IndexError` (`none`) from `n` on. -/
+theorem C13_getitem (m : Mode) (n : Nat) (s : TP) (d : Dur) (hn : 2 ≤ n) (hs : s.Valid m)
+    (hex : d.isExact = true) (hpos : 0 < d.exactSeconds m) (i : Nat) :
+    ∃ r, mkRec m (some (n : Int)) (some s) (some d) none = some r ∧
+      (i < n → ∃ p, getItem m r i = some p ∧ p.inst m = s.inst m + (i : Int) * d.exactSeconds m ∧
+        p.Valid m ∧ p.date.rep = s.date.rep ∧ p.tz = s.tz) ∧
+      (n ≤ i → getItem m r i = none) := by
+  obtain ⟨r, hr, hlen, _, hser⟩ := C12_start_duration_bounded m n s d hn hs hex hpos (max n (i + 1)) (by omega)
+  -- the prefix of length i+1 is what __getitem__ walks
+  obtain ⟨e, hr', es, ei, _, _⟩ := mkRec_fmt3_bounded m n s d (by omega) hs hex hpos
+  rw [hr] at hr'
+  have hre : r = ⟨some (n : Int), some s, some d, some e, none, 3⟩ := by simpa using hr'
+  have hx : ExactRec m r d (d.exactSeconds m) := by
+    rw [hre]
+    exact exactRec_of m _ d rfl hex hpos (by simp; omega) (fun s' h => by cases h; exact hs)
+      (fun e' h => by cases h; exact es.1)
+  have hs' : r.start = some s := by rw [hre]
+  obtain ⟨a, b, _⟩ := iterFrom_fwd m r d _ hx (i + 1) s hs (fun s' h => by rw [hs'] at h; cases h; exact Int.le_refl _)
+  have hnn := Int.mul_nonneg (Int.le_of_lt hpos) (show (0:Int) ≤ (n:Int) - 1 by omega)
+  have hlen2 := b e (by rw [hre]) (by rw [ei]; omega)
+  have hq : (e.inst m - s.inst m) / d.exactSeconds m = (n : Int) - 1 := by
+    rw [ei]
+    have : s.inst m + d.exactSeconds m * ((n : Int) - 1) - s.inst m = d.exactSeconds m * ((n : Int) - 1) := by omega
+    rw [this, Int.mul_ediv_cancel_left _ (by omega)]
+  rw [hq] at hlen2
+  refine ⟨r, hr, ?_, ?_⟩
+  · intro hi
+    have hl : i < (iterFrom m r false (i + 1) s).length := by omega
+    have hg := seriesOK_get m _ _ _ _ _ a i hl
+    refine ⟨(iterFrom m r false (i + 1) s)[i], ?_, hg.1, hg.2.1, hg.2.2.1, hg.2.2.2⟩
+    unfold getItem
+    rw [iter_fwd m r d _ hx s hs' (i + 1)]
+    exact List.getElem?_eq_getElem hl
+  · intro hi
+    unfold getItem
+    rw [iter_fwd m r d _ hx s hs' (i + 1)]
+    apply List.getElem?_eq_none
+    omega
+
+/-! ### `get_first_after` -/
+
+/-- **get_first_after**, closed form for an exact interval: for a probe within the bounds the
+    result is the member `start + (⌊(p − start)/L⌋ + 1)·L` — the earliest member strictly later
+    than `p` — if that is still within the bounds, and `None` otherwise (repaired defect F3);
+    before the start it is the start; after the end `None`. -/
+theorem C13_first_after_exact (m : Mode) (r : Rec) (d : Dur) (L : Int) (hr : ExactRec m r d L) (s : TP)
+    (hs : r.start = some s) (p : TP) (hp : p.Valid m) (fuel : Nat) :
+    (inBounds m r p = true →
+      ∃ q, Good m p q (L - (p.inst m - s.inst m) % L) ∧
+        q.inst m = s.inst m + ((p.inst m - s.inst m) / L + 1) * L ∧ p.inst m < q.inst m ∧
+        q.inst m ≤ p.inst m + L ∧
+        getFirstAfter m r p fuel = (if inBounds m r q then some q else none)) ∧
+    (inBounds m r p = false → p.inst m < s.inst m → getFirstAfter m r p fuel = some s) ∧
+    (inBounds m r p = false → ¬ p.inst m < s.inst m → getFirstAfter m r p fuel = none) := by
+  have hsv := hr.startValid s hs
+  have hpos := hr.pos
+  refine ⟨?_, ?_, ?_⟩
+  · intro hb
+    have hge : s.inst m ≤ p.inst m := ((inBounds_iff m r d L hr p hp).mp hb).1 s hs
+    obtain ⟨dd, hh, mm, ss, hd, hl, _, _⟩ := subTP_spec m p s hp hsv
+    have hdsec : (Dur.units 0 0 dd hh mm ss).seconds m = p.inst m - s.inst m := by
+      rw [seconds_exact m _ rfl]
+      simp only [Dur.exactSeconds, secondsInDay_eq, secondsInHour_eq, secondsInMinute_eq]; omega
+    have hLsec : d.seconds m = L := by rw [seconds_exact m d hr.exact, hr.len]
+    have hfm : Int.fmod (p.inst m - s.inst m) L = (p.inst m - s.inst m) % L :=
+      Int.fmod_eq_emod_of_nonneg _ (by omega)
+    -- the duration added: d - since
+    have hsubex : (Dur.sub m d (.units 0 0 0 0 0 ((p.inst m - s.inst m) % L))).isExact = true := by
+      have := hr.exact
+      cases d with
+      | weeks w => rfl
+      | units y mo a b c e =>
+        simp only [Dur.isExact, Bool.and_eq_true, beq_iff_eq] at this
+        simp [Dur.sub, Dur.add, Dur.mul, Dur.toDays, Dur.isExact, this.1, this.2]
+    have hsubsec : (Dur.sub m d (.units 0 0 0 0 0 ((p.inst m - s.inst m) % L))).exactSeconds m =
+        L - (p.inst m - s.inst m) % L := by
+      have hl' := hr.len
+      cases d with
+      | weeks w =>
+        simp only [Dur.sub, Dur.add, Dur.mul, Dur.toDays, Dur.exactSeconds, daysInWeek_eq, secondsInDay_eq,
+          secondsInHour_eq, secondsInMinute_eq] at hl' ⊢
+        omega
+      | units y mo a b c e =>
+        simp only [Dur.sub, Dur.add, Dur.mul, Dur.toDays, Dur.exactSeconds, secondsInDay_eq,
+          secondsInHour_eq, secondsInMinute_eq] at hl' ⊢
+        omega
+    obtain ⟨q, hq, g⟩ := addDur_exact m p _ hp hsubex
+    rw [hsubsec] at g
+    have hmod := Int.emod_nonneg (p.inst m - s.inst m) (show L ≠ 0 by omega)
+    have hmod2 := Int.emod_lt_of_pos (p.inst m - s.inst m) hpos
+    have hdm := Int.emod_add_mul_ediv (p.inst m - s.inst m) L
+    refine ⟨q, g, ?_, by rw [g.inst]; omega, by rw [g.inst]; omega, ?_⟩
+    · rw [g.inst, Int.add_mul, Int.one_mul, Int.mul_comm ((p.inst m - s.inst m) / L) L]; omega
+    · unfold getFirstAfter
+      have hL0 : ¬ L = 0 := by omega
+      simp only [hs, hb, ↓reduceIte, hr.dur, hr.exact, hd, hdsec, hLsec, hL0, hfm, hq]
+  · intro hb hlt
+    unfold getFirstAfter
+    simp only [hs, hb, Bool.false_eq_true, ↓reduceIte, (tpLt_iff m p s hp hsv).mpr hlt]
+  · intro hb hge
+    have : tpLt m p s = false := by
+      cases h : tpLt m p s
+      · rfl
+      · exact absurd ((tpLt_iff m p s hp hsv).mp h) hge
+    unfold getFirstAfter
+    simp only [hs, hb, Bool.false_eq_true, ↓reduceIte, this]
+
+/-! ## Non-vacuity: the witness of the repaired defect F3 -/
+
+example : getFirstAfter .greg ⟨some 3, some ⟨.cal 2002 5 4, 23, 0, 0, ⟨0, 0⟩⟩, some (.units 0 0 0 1 0 0),
+    some ⟨.cal 2002 5 5, 1, 0, 0, ⟨0, 0⟩⟩, none, 3⟩ ⟨.cal 2002 5 5, 1, 0, 0, ⟨0, 0⟩⟩ 10 = none := by
+  decide +kernel
+example : getFirstAfter .greg ⟨some 3, some ⟨.cal 2002 5 4, 23, 0, 0, ⟨0, 0⟩⟩, some (.units 0 0 0 1 0 0),
+    some ⟨.cal 2002 5 5, 1, 0, 0, ⟨0, 0⟩⟩, none, 3⟩ ⟨.ord 2002 124, 23, 30, 0, ⟨0, 0⟩⟩ 10 =
+    some ⟨.ord 2002 125, 0, 0, 0, ⟨0, 0⟩⟩ := by
+  decide +kernel
+
 end IsoDT.Props.C13
